@@ -156,7 +156,7 @@ func init() {
 		ID:    "C10",
 		Level: "model_checking",
 		Rule: "typed worlds: three dependencies (two named x, one whose name differs from its path); source file with import style per dependency in {plain, alias, dot} x moved item {function, function also using a source-local function (ResolveLocalPath), variable, statement} using each non-empty subset of the dependencies " +
-			"x target file (same or another package) with style per dependency in {absent, plain, alias, dot} x histories {single move, chain through a third file, two items, move back}; only type-correct source/target files are in the quantifier; decoration with the types-based resolver, restoration with an exact package-name map; " +
+			"x target file (same or another package) with style per dependency in {absent, plain, alias, dot} x histories {single move, chain through a third file, two items, move back, move a Clone}; only type-correct source/target files are in the quantifier; decoration with the types-based resolver, restoration with an exact package-name map; " +
 			"oracle: the restored target type-checks and every moved identifier denotes the object of the same package path and name; state = (source styles, target styles, item, uses, history); non-trivial = every state",
 		Assumptions: []string{"go/types of this toolchain is the acceptance oracle", "no declaration of the generated targets shadows an import name (the property's proviso)"},
 		Units: func(tier string) []string {
@@ -201,7 +201,7 @@ func runC10(ctx *core.Ctx, unit int) {
 				for uses := 1; uses < 8; uses++ {
 					hists := []string{"single"}
 					if uses == 7 || ctx.Thorough() {
-						hists = []string{"single", "chain", "two", "back"}
+						hists = []string{"single", "chain", "two", "back", "clone"}
 					}
 					for _, h := range hists {
 						if ctx.Expired() {
@@ -330,6 +330,16 @@ func c10Check(cs c10Case) (core.Outcome, bool) {
 		perItem = 3 * bitsSet(cs.Uses)
 	}
 	d, s := takeItem(src.file, cs.Item, "Item")
+	if cs.History == "clone" {
+		// the copy travels, the original goes back where it was
+		orig, origS := d, s
+		if d != nil {
+			d = dst.Clone(d).(dst.Decl)
+		} else {
+			s = dst.Clone(s).(dst.Stmt)
+		}
+		place(src.file, orig, origS)
+	}
 	place(tgt.file, d, s)
 	expectRefs = perItem
 	switch cs.History {
